@@ -25,7 +25,7 @@ manifest = {
         {"name": "check", "path": "/verif/check", "serves_properties": [],
          "kind_free_text": "python3 driver: rebuilds the binary from /repo's working tree, runs batches as child processes under a wall-clock watchdog, collects race-detector logs and crash output, merges monitor observations, triages against KNOWN_FINDINGS.json, writes evidence/<id>.json"},
     ],
-    "notes": "Family: runtime monitoring and sanitizers. Verdicts: exit 0 = held on what was observed, exit 1 = VIOLATION line(s) with replay files, exit 2 = INCONCLUSIVE (watchdog fired or the monitors observed fewer events than their floor). Case lists are a function of (VERIF_SEED, tier); no oracle reads the wall clock. See DESIGN.md.",
+    "notes": "Family: runtime monitoring and sanitizers. Floors (a run that observed too little is INCONCLUSIVE) are set on quantities the workload generators control (cases, scripts, executions, boundary calls observed), not on implementation-dependent counts such as the number of Write calls per message or yield points hit. Verdicts: exit 0 = held on what was observed, exit 1 = VIOLATION line(s) with replay files, exit 2 = INCONCLUSIVE (watchdog fired or the monitors observed fewer events than their floor). Case lists are a function of (VERIF_SEED, tier); no oracle reads the wall clock. See DESIGN.md.",
 }
 
 RACE = "Go race detector (+checkptr) active on every execution"
@@ -82,7 +82,7 @@ chk("C15",
     assumptions=["writers respect the io.Writer contract"],
     nbatch={"quick": 16, "thorough": 16},
     timeout_s={"quick": 600, "thorough": 3600},
-    floors={"quick": {"faulted_writes": 50000, "roundtrips": 3000}},
+    floors={"quick": {"messages": 5000, "faulted_writes": 5000, "roundtrips": 3000}},
     )
 
 chk("C08",
@@ -120,7 +120,7 @@ chk("C03",
     assumptions=["subscribers' Send/Flush return (finite virtual latency)", "select choice among ready cases is not controlled; coverage of it comes from repetition"],
     nbatch={"quick": 16, "thorough": 16},
     timeout_s={"quick": 600, "thorough": 3600},
-    floors={"quick": {"executions": 20000, "client_calls_observed": 200000, "point_loop.sent": 100000}},
+    floors={"quick": {"executions": 20000, "client_calls_observed": 100000, "replayer_calls_observed": 50000}},
     )
 
 chk("C04",
@@ -132,7 +132,7 @@ chk("C04",
     assumptions=["ValidReplayer TTL (1 h virtual) never elapses in these scenarios; expiry is covered by C09"],
     nbatch={"quick": 16, "thorough": 16},
     timeout_s={"quick": 600, "thorough": 3600},
-    floors={"quick": {"executions": 20000, "client_calls_observed": 200000, "point_loop.replayed": 20000}},
+    floors={"quick": {"executions": 20000, "client_calls_observed": 100000, "replayer_calls_observed": 100000}},
     )
 
 chk("C06",
@@ -144,7 +144,7 @@ chk("C06",
     assumptions=["select choice among ready cases is not controlled; coverage of it comes from repetition"],
     nbatch={"quick": 16, "thorough": 16},
     timeout_s={"quick": 600, "thorough": 3600},
-    floors={"quick": {"executions": 20000, "point_loop.errsent": 5000, "point_sub.ctxdone": 2000}},
+    floors={"quick": {"executions": 20000, "client_calls_observed": 100000, "real_goroutine_runs": 10000}},
     )
 
 chk("C07",
@@ -156,7 +156,7 @@ chk("C07",
     assumptions=["subscribers' Send/Flush return (finite virtual latency)"],
     nbatch={"quick": 16, "thorough": 16},
     timeout_s={"quick": 600, "thorough": 3600},
-    floors={"quick": {"executions": 20000, "point_shutdown.closed": 20000}},
+    floors={"quick": {"executions": 20000, "client_calls_observed": 20000}},
     )
 
 chk("C17",
@@ -168,7 +168,7 @@ chk("C17",
     assumptions=["subscribers' Send/Flush return"],
     nbatch={"quick": 16, "thorough": 16},
     timeout_s={"quick": 600, "thorough": 3600},
-    floors={"quick": {"executions": 20000, "point_loop.errsent": 5000}},
+    floors={"quick": {"executions": 20000, "client_calls_observed": 100000}},
     )
 
 CLIENT_NOTE = "Connection.Connect runs inside a testing/synctest bubble against a scripted http.RoundTripper, so waits of any length are virtual and exact; the monitor reads only what crosses the public boundary (requests seen by the RoundTripper with virtual arrival times, OnRetry arguments, callbacks, Connect's return value)."
@@ -230,7 +230,7 @@ chk("C16",
     assumptions=["response writers respect the io.Writer contract"],
     nbatch={"quick": 16, "thorough": 16},
     timeout_s={"quick": 600, "thorough": 3600},
-    floors={"quick": {"faulted_executions": 100000, "servehttp_executions": 3000}},
+    floors={"quick": {"session_scripts": 2500, "faulted_executions": 10000, "servehttp_executions": 3000}},
     )
 
 chk("C19",
